@@ -248,7 +248,8 @@ def expected_default(p):
     if isinstance(v, bool):
         return "true" if v else "false"
     if isinstance(v, str):
-        return f'"{v}"'
+        import oracles_gen
+        return oracles_gen.sds_string(v)
     return f"{v}"
 
 
@@ -958,12 +959,44 @@ def check_refs(fail, stubs: Stubs, safe, truth: Truth = None):
             if m["qname"] in reexported_modules:
                 all_moved |= {x["name"] for x in m["classes"] + m["functions"]}
 
+    def reexporters(name):
+        """the packages whose __init__ re-exports `name` by name or through a wildcard (a subset of the candidates of
+        `_get_shortest_public_reexport`)"""
+        out = set()
+        if pkg is None:
+            return out
+        for p, entries in pkg["inits"].items():
+            for e in entries:
+                if e["form"] == "name" and e["name"] == name:
+                    out.add(p)
+                elif e["form"] == "star":
+                    for m in pkg["modules"]:
+                        if m["qname"] == e["module"] and any(x["name"] == name for x in m["classes"] + m["functions"]):
+                            out.add(p)
+        return out
+
+    def rendered(p):
+        import stage_names
+        segs = p.split("/")
+        return ".".join(stage_names.spec_camel(x, False) if safe else x for x in segs)
+
+    def better_reexporter(name, frm):
+        """the import names a re-exporting package although another one comes first in the specified order (fewest
+        path segments, then id): NOT the known defect K11-reexport-moves-import, where the import names the first one"""
+        cands = reexporters(name)
+        mine = [c for c in cands if rendered(c) == frm]
+        if not mine:
+            return False
+        c0 = min(mine, key=lambda c: (c.count("/"), c))
+        return any((c.count("/"), c) < (c0.count("/"), c0) for c in cands)
+
     def facts(path, name, frm=None, pymodule=None):
         segs = (frm or "").split(".")
         return {"path": path, "name": name, "private_class": name.lstrip("`").startswith("_"),
                 # the name is that of a declaration of this very module which an __init__ moved to another package
                 "refers_to_moved_sibling": name in moved_names.get(pymodule, set()) or name in moved_names.get(frm, set()),
-                "refers_to_reexported_declaration": name in all_moved,
+                "refers_to_reexported_declaration": name in all_moved and not (frm and better_reexporter(name.strip("`"), frm)),
+                "import_skips_first_reexporter": bool(frm and better_reexporter(name.strip("`"), frm)),
                 "private_path": any(x.lstrip("`").startswith("_") for x in segs[1:]),
                 "module_reexported": frm in reexported_modules if frm else False,
                 "reexport_stub": path in reexport_stub_paths or any(path.startswith(q.replace(".", "/").rsplit("/", 1)[0] + "/")
@@ -1087,7 +1120,13 @@ def check_inventory(fail, truth: Truth, api, excluded):
                 want_default = None
                 if p["default"] is not None:
                     v = p["default"][1]
-                    want_default = f'"{v}"' if isinstance(v, str) else v
+                    want_default = v
+                    if isinstance(v, str):
+                        import oracles_gen
+                        want_default = oracles_gen.sds_string(v)
+                        got_text = jp["default_value"]
+                        if isinstance(got_text, str) and stubparse.string_value(got_text) == v:
+                            want_default = got_text      # any well-formed literal that denotes the Python string
                 if jp["is_optional"] != (p["default"] is not None):
                     fail("C06", f"{q}: parameter {p['name']!r} is_optional {jp['is_optional']} in the API JSON", decl=q)
                 elif p["default"] is not None and (jp["default_value"] != want_default or type(jp["default_value"]) is not type(want_default)):
